@@ -8,6 +8,7 @@ CONSTANTS
   U16Classes <- C_U16
   NameClasses <- C_Name
   Pairs = TRUE
+  CutInCtx = TRUE
   CutDevs = TRUE
 CONSTRAINT Emit
 INVARIANTS InvRoundTrip InvRejects InvEnd InvConsume InvAlloc
